@@ -240,6 +240,8 @@ func checkC16(c *Ctx) Meta {
 		strict: func(fn *ssa.Function, call *ssa.Call) bool { return true }})
 
 	// ---- OWN: a queued frame is not overwritten by the next one (the C17 ownership rule as the premise of "lossless")
+	c.Rule("C16-DECNIL", "a decoded message is well-formed: no SetMsg stores a possibly-nil pointer into a pointer-typed field of the message it fills (an absent or empty wire field is an error, not a nil target the receivers dereference) — except the fields the encoder treats as optional", 4)
+	checkDecodedPointersNonNil(c, "C16-DECNIL")
 	c.Rule("C16-OWN", "a received frame keeps its bytes until it is decoded: every frame handed to the receive queue owns a freshly allocated buffer", 1)
 	c.pushAlias("C17-OWN", "C16-OWN")
 	checkFrameOwnership(c)
@@ -1134,5 +1136,53 @@ func checkRoutineOwnedState(c *Ctx, rule string) {
 		c.Bad(rule, key, "", strings.Join(bad, "; ")+": two goroutines of one connection write the same field without synchronisation — with the size-prefix buffer shared, a frame is sent under the length of the frame being received and the stream is cut at the wrong place")
 	} else {
 		c.OK(rule, key, "", fmt.Sprintf("%d goroutines per connection, no Conn field written by more than one of them", len(roots)))
+	}
+}
+
+// checkDecodedPointersNonNil (C16-DECNIL): in every SetMsg of package protocol, a value stored into a
+// pointer-typed field of the receiver is never the nil constant (directly or as one edge of a phi / one reaching
+// store of a local). The receivers of a message use these fields without nil tests (Copy(), big.Int arithmetic).
+func checkDecodedPointersNonNil(c *Ctx, rule string) {
+	var fns []*ssa.Function
+	for fn := range c.AllFuncs {
+		if fn != nil && fn.Blocks != nil && pkgOf(fn) == pkgProto && fn.Signature.Recv() != nil && fn.Name() == "SetMsg" {
+			fns = append(fns, fn)
+		}
+	}
+	sort.Slice(fns, func(i, j int) bool { return FuncName(fns[i]) < FuncName(fns[j]) })
+	n := 0
+	for _, fn := range fns {
+		for _, a := range fieldAccessesShallow(fn) {
+			if a.Kind != "store" {
+				continue
+			}
+			st, ok := a.In.(*ssa.Store)
+			if !ok {
+				continue
+			}
+			if _, isPtr := st.Val.Type().Underlying().(*types.Pointer); !isPtr {
+				continue
+			}
+			// only fields of the message being filled (the receiver)
+			if len(fn.Params) == 0 || !backSlice(a.Base).has(fn.Params[0]) {
+				continue
+			}
+			n++
+			key := FuncName(fn) + ":" + a.Field
+			mayNil := false
+			valueOrigins(fn, st.Val, func(root ssa.Value) {
+				if k, isK := root.(*ssa.Const); isK && k.IsNil() {
+					mayNil = true
+				}
+			})
+			if mayNil {
+				c.Bad(rule, key, c.Pos(st.Pos()), "SetMsg can leave the pointer field "+a.Field+" nil and still succeed (an empty or absent wire field decodes to nil): the receivers of the message dereference it")
+			} else {
+				c.OK(rule, key, c.Pos(st.Pos()), "the stored pointer is never the nil constant")
+			}
+		}
+	}
+	if n == 0 {
+		c.Bad(rule, "anchor", "", "reason=anchor-missing: no pointer field stored by a SetMsg of package protocol")
 	}
 }
